@@ -560,6 +560,10 @@ def r6(ctx):
         whyp = f'observation probability uses {src(node)[:50]}' + ('' if okp else ': not 10 ** (-Q / 10) with true division (floor division buckets the qualities by tens)')
     ctx.emit('C15-R6', okp, MOLECULE, pows[0][2] if pows else g, 'get_base_confidence_dict: ' + whyp, key='phred-to-probability',
              what='get_base_confidence_dict: phred to probability conversion is not 1 - 10^(-Q/10)')
+    aligned_blocks_rule(ctx, 'C15-R6')
+
+
+def aligned_blocks_rule(ctx, rid):
     # covered reference positions are the aligned (matched) positions of the reads, not their reference spans (which include deletions / skips)
     ab = ctx.fn(MOLECULE, 'Molecule.get_aligned_blocks')
     comps = [c_ for c_ in walk_no_nested(ab) if isinstance(c_, (ast.GeneratorExp, ast.ListComp, ast.SetComp))]
@@ -573,8 +577,70 @@ def r6(ctx):
             and len(pair_gen[0].target.elts) >= 2 and src(c_.elt) == src(pair_gen[0].target.elts[1]) and not any(g_.ifs for g_ in gens)
         whyb = 'covered positions = reference positions of get_aligned_pairs(matches_only=True) of every read' if okb else \
             f'covered positions `{src(c_)[:90]}` are not the matched reference positions of every read (a reference span also covers deleted / skipped bases)'
-    ctx.emit('C15-R6', okb, MOLECULE, ab, 'get_aligned_blocks: ' + whyb, key='aligned-blocks-from-matches',
+    if not okb and len(comps) >= 1:
+        merged_form = _aligned_blocks_by_merging(ctx, ab, comps)
+        if merged_form is not None:
+            okb, whyb, wit = merged_form
+            ctx.emit(rid, okb, MOLECULE, ab, 'get_aligned_blocks: ' + whyb, key='aligned-blocks-from-matches', witness=wit, undecided=(okb is None),
+                     what='get_aligned_blocks: merged blocks differ from the positions the reads cover')
+            return
+    ctx.emit(rid, okb, MOLECULE, ab, 'get_aligned_blocks: ' + whyb, key='aligned-blocks-from-matches',
              what='get_aligned_blocks: covered positions include deleted / skipped reference bases or skip reads')
+
+
+def _aligned_blocks_by_merging(ctx, ab, comps):
+    """get_aligned_blocks written as a merge of the reads' pysam blocks (half-open (start, end) pairs of get_blocks()) instead of an expansion into
+    positions: the function is interpreted on every list of up to three blocks over the coordinates 0..6 and has to return the maximal runs of
+    covered positions as inclusive (first, last) pairs.  None when the function does not have this shape."""
+    import copy
+    import itertools
+    from ..consteval import run_function, Unfoldable
+    srcs = [c_ for c_ in comps if any(isinstance(g_.iter, ast.Call) and isinstance(g_.iter.func, ast.Attribute) and g_.iter.func.attr == 'get_blocks' for g_ in c_.generators)]
+    if len(srcs) != 1:
+        return None
+    c_ = srcs[0]
+    bg = [g_ for g_ in c_.generators if isinstance(g_.iter, ast.Call) and isinstance(g_.iter.func, ast.Attribute) and g_.iter.func.attr == 'get_blocks'][0]
+    if any(g_.ifs for g_ in c_.generators) or not (isinstance(bg.target, ast.Tuple) and len(bg.target.elts) == 2 and all(isinstance(e_, ast.Name) for e_ in bg.target.elts)):
+        return (None, f'blocks are collected by `{src(c_)[:80]}` (filtered or not unpacked as (start, end))', None)
+    sv, ev_ = [e_.id for e_ in bg.target.elts]
+    f2 = copy.deepcopy(ab)
+
+    class Repl(ast.NodeTransformer):
+        def visit_GeneratorExp(self, n):
+            return ast.Name(id='__blocks', ctx=ast.Load()) if src(n) == src(c_) else self.generic_visit(n)
+        visit_ListComp = visit_SetComp = visit_GeneratorExp
+    f2 = ast.fix_missing_locations(Repl().visit(f2))
+    f2.args.args = [ast.arg(arg='__blocks')]
+    f2.args.defaults = []
+    f2.decorator_list = []
+    coords = range(0, 7)
+    blocks = [(a, b) for a in coords for b in coords if a < b]
+    n = 0
+    try:
+        for k in (0, 1, 2, 3):
+            for combo in itertools.product(blocks, repeat=k):
+                if k == 3 and not (combo[0] <= combo[1]):        # two of the three in either order is enough to see an order dependence
+                    continue
+                n += 1
+                elems = [run_function(ast.FunctionDef(name='e', args=ast.arguments(posonlyargs=[], args=[ast.arg(arg=sv), ast.arg(arg=ev_)], kwonlyargs=[], kw_defaults=[], defaults=[]),
+                                                      body=[ast.Return(value=c_.elt)], decorator_list=[], lineno=1, col_offset=0), [a, b]) for a, b in combo]
+                got = run_function(f2, [list(elems)])
+                got = [tuple(x) for x in list(got)] if got is not None else None
+                pos = sorted({p_ for a, b in combo for p_ in range(a, b)})
+                want = []
+                for p_ in pos:
+                    if want and want[-1][1] == p_ - 1:
+                        want[-1] = (want[-1][0], p_)
+                    else:
+                        want.append((p_, p_))
+                if got != want:
+                    return (False, f'merging the read blocks {list(combo)} (half-open) gives {got}, the reads cover {want}: ' +
+                            ('a block nested in an earlier, longer block cuts the merged block short' if got and want and len(got) == len(want) and got[0][1] < want[0][1] else 'the merged blocks are not the covered runs'),
+                            {'read blocks (half-open)': list(combo), 'returned': got, 'covered runs': want})
+    except Unfoldable as ex:
+        return (None, f'block merge uses a construct outside the interpreted subset ({ex})', None)
+    ctx.counters['abstract_cases'] += n
+    return (True, f'blocks of get_blocks() merged into the covered runs on {n} block lists over coordinates 0..6', None)
 
 
 @rule('C15', 'C15-R7', 'the consensus read is built from the molecule as it is when it is requested: the base calls handed to get_dedup_reads come from a call of '
